@@ -192,8 +192,26 @@ func (s *Solver) declare(t *Term) {
 	}
 }
 
+// restart replaces the solver process (drops the accumulated global declarations).
+func (s *Solver) restart() {
+	logPath := ""
+	old := s.cmd
+	s.in.Close()
+	go func() { old.Wait() }()
+	n, err := NewSolver(s.kind, s.timeout, logPath)
+	if err != nil {
+		panic("cannot restart solver: " + err.Error())
+	}
+	lg := s.log
+	*s = *n
+	s.log = lg
+}
+
 // Sync makes the solver's assertion stack equal to pc.
 func (s *Solver) Sync(pc []*Term) {
+	if len(s.declared) > 150000 {
+		s.restart()
+	}
 	common := 0
 	for common < len(pc) && common < len(s.stack) && pc[common] == s.stack[common] {
 		common++
